@@ -586,7 +586,7 @@ def double_crash(hist, ctx, ck, tag, pool_size, rng, tier, forced=None, levels=1
             shutil.rmtree(root)
         vfs.materialize(ctx.rr.init, evs, c1[0], c1[1], root)
         res2 = check_history(h2, ck, '%s-dc%d' % (tag, i), pool_size, rng, tier,
-                             150 if tier == 'quick' else 500, base_root=root, base_ctx=ctx)
+                             110 if tier == 'quick' else 500, base_root=root, base_ctx=ctx)
         ck.count('double-crash-runs')
         for cut, v, obs in res2.get('results', []):
             ck.case([res2['ctx'].hid, cut[0], cut[1]], cut[2], None)
@@ -777,7 +777,7 @@ def main(argv=None):
     for hi, (name, hist) in enumerate(hists):
         limit = None
         if tier == 'quick':
-            limit = 600 if len(hists) <= 18 else 450
+            limit = 480 if len(hists) <= 18 else 400
         if name.startswith('boundary-'):
             limit = (120 if tier == 'quick' else 600) if name != 'boundary-empty' else limit
         res = check_history(hist, ck, 'h%d' % hi, pool, ck.rng, tier, limit)
